@@ -5,9 +5,10 @@
 EXTENDS FsckPreserve, Json, IOUtils
 Univ == [modes |-> SetToSeq(Modes), dirfamily |-> SetToSeq(DirFamily), quickdirfamily |-> SetToSeq(QuickDirFamily), mapshapes |-> SetToSeq(MapShapes),
          layouts |-> SetToSeq(StartLayouts), extstatefamily |-> SetToSeq(ExtStateFamily), cfdirfamily |-> SetToSeq(CfDirFamily),
-         validnamekinds |-> SetToSeq(ValidNameKinds), twinnamekinds |-> SetToSeq(TwinNameKinds), invalidnamekinds |-> SetToSeq(InvalidNameKinds), summarykinds |-> SetToSeq(SummaryKinds), gdcsum |-> SetToSeq(GdCsumVariants)]
+         validnamekinds |-> SetToSeq(ValidNameKinds), twinnamekinds |-> SetToSeq(TwinNameKinds), invalidnamekinds |-> SetToSeq(InvalidNameKinds), sizefamily |-> SetToSeq(SizeFamily), sizelimits |-> SetToSeq({[bs |-> b] @@ SizeLimits[b] : b \in SizeBlockSizes}),
+         summarykinds |-> SetToSeq(SummaryKinds), gdcsum |-> SetToSeq(GdCsumVariants)]
 ASSUME JsonSerialize(IOEnv.OUT, Univ)
-EmitInit == FALSE /\ leaves = <<>> /\ index = <<>> /\ indexed = FALSE /\ cfm = "plain" /\ exts = <<>> /\ kind = "" /\ meta = {} /\ bitmap = {}
+EmitInit == FALSE /\ leaves = <<>> /\ index = <<>> /\ indexed = FALSE /\ cfm = "plain" /\ exts = <<>> /\ kind = "" /\ meta = {} /\ fsize = 0 /\ bitmap = {}
             /\ freecnt = 0 /\ uninit = FALSE /\ badcsum = {} /\ dmg = 0 /\ runs = 0 /\ tree = {} /\ tree0 = {} /\ cons = TRUE
             /\ exit = 0 /\ mode = "" /\ dmgd = FALSE /\ dch = FALSE /\ mch = FALSE /\ lin3 = FALSE
 EmitNext == UNCHANGED vars
